@@ -30,7 +30,11 @@ func runC13(c *CaseCtx) {
 		nb = 1
 		class += "-sparse"
 	}
-	u := defaultUniverse(r, nb, 5+r.Intn(6), ds)
+	nKeys := 5 + r.Intn(6)
+	if c.Case%3 == 0 {
+		nKeys = 18 + r.Intn(14) // enough distinct keys for a transaction that fills whole segments with keys it writes once
+	}
+	u := defaultUniverse(r, nb, nKeys, ds)
 	run := NewRunner(c, cfg, u, class)
 	c.Log("cfg %s buckets=%v", cfg, u.Buckets)
 	if !run.Open() {
@@ -46,6 +50,25 @@ func runC13(c *CaseCtx) {
 		if tpl := c13Template(g, ds); tpl != nil && r.Intn(4) == 0 {
 			t.Ops = tpl
 			c.Stat("remove_readd_pop_templates", 1)
+		} else if r.Intn(8) == 0 {
+			// one transaction larger than a segment: its records span several files (segments that hold nothing but
+			// records of this transaction), later transactions rotate further
+			var ops []Op
+			b := g.bucket()
+			perm := r.Perm(len(u.KVKeys))
+			for need, i := int(cfg.Seg)*(1+r.Intn(3)), 0; need > 0 && len(ops) <= 90; i++ {
+				var o Op
+				if i < len(perm) { // every key once first: the newest version of a key may then lie in a middle segment
+					k := u.KVKeys[perm[i]]
+					o = Op{K: "Put", B: b, Key: k, Val: g.value(b, len(k))}
+				} else {
+					o = g.kvWrite()
+				}
+				ops = append(ops, o)
+				need -= 42 + len(o.B) + len(o.Key) + len(o.Val)
+			}
+			t.Ops = ops
+			c.Stat("transactions_larger_than_a_segment", 1)
 		}
 		// make the transaction look at what it just did
 		var ops []Op
